@@ -224,6 +224,10 @@ def _nodata_for(R, dtype):
     return R.choice(opts)
 
 
+def _is_rot(geo):
+    return any(k in geo["klass"] for k in ("r90", "r180", "r270", "shear", "pyth", "rot"))
+
+
 _origin_cache = {}
 
 
@@ -376,9 +380,15 @@ def gen_case(R, focus=None, max_side=400, max_tiles=260):
 
 @st.composite
 def s_case(draw, focus=None, max_side=400, max_tiles=260):
+    # All randomness is Hypothesis': the configuration is a deterministic function of the drawn seed *and* the drawn
+    # geo-referencing (Hypothesis likes to repeat / copy integers between examples; mixing in the floats keeps the
+    # configurations distinct).
     seed = draw(st.integers(0, 2**63 - 1))
-    case = gen_case(random.Random(seed), focus=focus, max_side=max_side, max_tiles=max_tiles)
-    case["geo"] = draw(s_geo(allow_rot=min(case["shape"]) > 1))
+    geo_rot = draw(s_geo(allow_rot=True))
+    geo_plain = draw(s_geo(allow_rot=False))
+    R = random.Random(repr((seed, geo_rot["affine"], geo_rot["crs"]["label"], geo_plain["affine"], geo_plain["crs"]["label"])))
+    case = gen_case(R, focus=focus, max_side=max_side, max_tiles=max_tiles)
+    case["geo"] = geo_rot if min(case["shape"]) > 1 else geo_plain
     return case
 
 
@@ -643,7 +653,7 @@ def classify(case, T):
         T.cls("repartitioned_bags")
     if (n + 1) * planes > 4:
         T.cls("concat_substreams")
-    T.cls("geo_%s%s" % (case["geo"]["family"], "_rot" if any(k in case["geo"]["klass"] for k in ("r90", "r180", "r270", "shear", "pyth", "rot")) else ""))
+    T.cls("geo_%s%s" % (case["geo"]["family"], "_rot" if _is_rot(case["geo"]) else ""))
     T.cls("pix_%s" % case["pix"]["kind"])
     if H % ty or W % tx or n >= 1 or case["ns"] > 1:
         T.nontrivial()
@@ -1103,11 +1113,15 @@ def o_header(case, T):
 
 
 # --------------------------------------------------------------------------------------------- known findings
+# Signature predicates for the genuine defects this check found (ids are proposals; they only take effect when the
+# lead lists them in known_findings.json with status "known").
 def _k_last_level(sub, case, msg):
-    return "ZeroDivisionError" in msg and "compute_zoom_to" in msg
+    """D23: _make_empty_cog zooms the GeoBox once more after the last level: a side of 1 px becomes 0."""
+    return "ZeroDivisionError" in msg and "geobox.py" in msg
 
 
 def _k_axis_guess(sub, case, msg):
+    """D24: yaxis_from_shape guesses YXS for (S, H, 3|4) and for S == H == W although the array says SYX."""
     if case.get("axis") != "SYX":
         return False
     H, W = case["shape"]
@@ -1115,16 +1129,32 @@ def _k_axis_guess(sub, case, msg):
 
 
 def _k_default_block0(sub, case, msg):
+    """D25: blocksize Unset with 1x1 source chunks derives an overview blocksize of 0."""
     return case.get("blocksize") is None and max(_chunksize(case)) < 2 and "invalid tile shape" in msg
+
+
+def _k_pad_whole_tile(sub, case, msg):
+    """D26: padding to 2^levels adds a whole level-0 tile row/column for which there is no source block."""
+    if "'tuple' object has no attribute 'ndim'" not in msg:
+        return False
+    H, W = case["shape"]
+    _, (Hp, Wp), tiles = expected_layout((H, W), _block_list(case))
+    ty, tx = tiles[0]
+    return -(-Hp // ty) > -(-H // ty) or -(-Wp // tx) > -(-W // tx)
 
 
 def build(chk: Check) -> None:
     _codecs()
-    chk.sub("gdal_decode", o_gdal, strategy=s_case(), n={"quick": 72, "thorough": 2400}, budget_s={"quick": 50, "thorough": 700}, shrink=False)
-    chk.sub("tiff_decode", o_tiff, strategy=s_case(), n={"quick": 72, "thorough": 2400}, budget_s={"quick": 50, "thorough": 700}, shrink=False)
-    chk.sub("layout", o_layout, strategy=s_case(), n={"quick": 72, "thorough": 2400}, budget_s={"quick": 50, "thorough": 700}, shrink=False)
-    chk.sub("thin_images", o_all, strategy=s_case(focus="thin"), n={"quick": 32, "thorough": 800}, budget_s={"quick": 30, "thorough": 400}, shrink=False)
-    chk.sub("header_rule", o_header, strategy=s_header(), n={"quick": 400, "thorough": 20000}, budget_s={"quick": 40, "thorough": 600}, shrink=False)
+    big = chk.tier == "thorough"
+    gen = dict(max_side=640, max_tiles=400) if big else dict(max_side=400, max_tiles=260)
+    n3 = {"quick": 96, "thorough": 4000}
+    b3 = {"quick": 60, "thorough": 800}
+    chk.sub("gdal_decode", o_gdal, strategy=s_case(**gen), n=n3, budget_s=b3, shrink=False)
+    chk.sub("tiff_decode", o_tiff, strategy=s_case(**gen), n=n3, budget_s=b3, shrink=False)
+    chk.sub("layout", o_layout, strategy=s_case(**gen), n=n3, budget_s=b3, shrink=False)
+    chk.sub("thin_images", o_all, strategy=s_case(focus="thin", **gen), n={"quick": 40, "thorough": 1600}, budget_s={"quick": 40, "thorough": 500}, shrink=False)
+    chk.sub("header_rule", o_header, strategy=s_header(), n={"quick": 400, "thorough": 30000}, budget_s={"quick": 40, "thorough": 600}, shrink=False)
     chk.known("D23", _k_last_level)
     chk.known("D24", _k_axis_guess)
     chk.known("D25", _k_default_block0)
+    chk.known("D26", _k_pad_whole_tile)
